@@ -381,7 +381,7 @@ class Decimal(Sensor):
         return read_decimal2(data, self.scale)
 
     def encode_value(self, value: Any, register_value: bytes = None) -> bytes:
-        return int.to_bytes(int(float(value) * self.scale), length=2, byteorder="big", signed=True)
+        return int.to_bytes(int(round(float(value) * self.scale)), length=2, byteorder="big", signed=True)
 
 
 class Float(Sensor):
